@@ -273,7 +273,7 @@ Theorem calculate_length_done path e opt : exists r, calculate_length path e opt
 Proof.
   pose proof (calculate_length_cases path e opt) as C. cbv zeta in C.
   destruct e as [L|]; [|eauto].
-  destruct (near_natural (natural_len path opt) L); [eauto|].
+  destruct (keeps_natural (natural_len path opt) L); [eauto|].
   destruct (last_two_equal path && D.gt L (natural_len path opt))%bool; [eauto|].
   destruct (Nat.leb (length path) 1); [eauto|].
   destruct (last_valid (removelast (natural path opt)) L); [eauto|].
